@@ -82,6 +82,10 @@ def harness_bin(name, config='default'):
 def build_harness(ctx, configs=('default',)):
     """cargo build of the harness crate against the CURRENT working tree of /repo (path dependency)."""
     ok = True
+    # CC_REPO (used by background runs on a snapshot of the repository) re-targets the path dependency
+    ct = HARNESS + '/Cargo.toml'; txt = open(ct).read()
+    want = re.sub(r'path = "[^"]*"', f'path = "{REPO}"', txt, count=1)
+    if want != txt: open(ct, 'w').write(want)
     with Lock('cargo'):
         # the lock file of the harness must agree with the repo's (same dependency versions)
         for cfg in configs:
